@@ -22,7 +22,7 @@ RULE = ("histories = sequences over 7 public edit operations followed by 'refine
         "distinct = distinct (pair, options, history, quiet, colour)")
 ASSUMPTIONS = ["signature compares sub-edits of ordered containers in order and of unordered containers as multisets",
                "reference = the signature reached by the canonical driver (the loop of TreeNode.diff) on fresh trees"]
-MINIMUMS = {"quick": {"histories_judged": 8000, "shape:tighten-tighten": 300, "shape:edits-before-complete": 1000,
+MINIMUMS = {"quick": {"command_lines_compared_across_status_settings": 400, "histories_judged": 8000, "shape:tighten-tighten": 300, "shape:edits-before-complete": 1000,
                       "shape:abandon-then-resume": 500, "non-quiet": 2000, "colour_renderings": 300},
             "thorough": {"histories_judged": 200000, "shape:tighten-tighten": 20000, "shape:edits-before-complete": 20000,
                          "shape:abandon-then-resume": 10000, "non-quiet": 50000, "colour_renderings": 5000}}
@@ -59,11 +59,25 @@ def plan(tier, seed):
     for fam in ["basic", "xml", "csv", "plist", "dataclass", "pyobj"]:
         specs.append({"stratum": f"sampled-{fam}", "family": fam, "n": per if not q else 150, "k": 0, "clean": True})
     specs.append({"stratum": "sampled-mset-dup", "family": "mset", "n": 150 if q else 3000, "k": 0, "case_timeout": 10})
+    for k in range(2 if q else 8):
+        specs.append({"stratum": "command-line-status-settings", "n": 120 if q else 1500, "k": k, "clean": True, "cli_status": True,
+                      "shrink": False})
     return specs
 
 
 def gen_cases(spec, ctx):
     r = ctx.rng
+    if spec.get("cli_status"):
+        # the status settings as a user has them: the same command with status output on (default; real file descriptors or a
+        # terminal), with --no-status and with --quiet must print the same thing
+        from gv import formats
+        for _ in range(spec["n"]):
+            t = r.choice(formats.TYPES)
+            a, b = formats.gen_pair_for_type(r, t, equal=r.random() < 0.1)
+            yield {"cli_status": True, "type": t, "a": a, "b": b, "ds": r.choice(gen.DS), "le": r.choice(gen.LE),
+                   "mode": r.choice([[], [], ["-e"], ["-d"], ["-j"], ["--color"]]),
+                   "fmt": r.choice([None, None, None, "yaml", "json", "xml", "csv", "plist"])}
+        return
     if spec.get("exhaustive"):
         base = FIXED[spec["pair"]]
         for n in range(1, spec["maxlen"] + 1):
@@ -147,9 +161,40 @@ def reference(case):
     return _ref_cache[key]
 
 
+def check_cli_status(case, ctx):
+    from gv import formats
+    from gv.props.c02 import cli_args
+    t = case["type"]
+    pa = families.tmpfile(formats.write(t, case["a"]), "-a" + formats.EXT[t])
+    pb = families.tmpfile(formats.write(t, case["b"]), "-b" + formats.EXT[t])
+    argv = case["mode"] + (["--format", case["fmt"]] if case["fmt"] else []) + cli_args(case) + [pa, pb]
+    runs = [("--no-status", monitors.run_main(["--no-status"] + argv)),
+            ("default status, real file descriptors", monitors.run_main(argv, real_files=True)),
+            ("--quiet", monitors.run_main(["--quiet"] + argv, real_files=True))]
+    if "--color" in case["mode"]:
+        runs.append(("default status, terminal", monitors.run_main(argv, tty=True)))
+    outs = []
+    for name, res in runs:
+        outs.append((name, ("exc", type(res.exc).__name__) if res.exc is not None else (res.rc, res.out)))
+    if ctx is not None:
+        ctx.count("command_lines_compared_across_status_settings", len(runs) - 1)
+        ctx.seen(case, nontrivial=case["a"] != case["b"])
+    ref = outs[0][1]
+    for name, o in outs[1:]:
+        if o != ref:
+            return [{"kind": "output-depends-on-status-setting", "argv": argv[:-2], "setting": name,
+                     "with_no_status": repr(ref)[:300], "with_setting": repr(o)[:300]}]
+    return []
+
+
 def check(case, ctx):
     monitors.TRAP.reset()
     diags = []
+    if case.get("cli_status"):
+        try:
+            return check_cli_status(case, ctx)
+        except Exception as ex:  # noqa
+            return [core.exc_diag("harness-exception", ex)]
     try:
         ref, compound = reference(case)
     except core.Budget as ex:
